@@ -3,6 +3,7 @@
 //! allocator and a tiny argv parser.  No dependency on the code under test.
 pub mod alloc;
 pub mod args;
+pub mod crash;
 pub mod panics;
 pub mod report;
 pub mod rng;
